@@ -39,7 +39,10 @@ MonInit(e) == [focus |-> e.focus, maxwb |-> e.maxwb, lin |-> e.lin,
                accBuf |-> 0,            \* bytes of accepted in-memory calls
                takenBuf |-> 0,          \* bytes of in-memory streams taken by the kernel
                bk |-> <<>>,             \* sid -> true backlog just before the call
-               dk |-> <<>>,             \* sid -> bytes of the call taken while it was in progress
+               dk |-> <<>>,             \* sid -> in-memory bytes (of any call) the kernel took while the call was in
+                                        \* progress: they may have left the backlog before the call was linearized
+               ak |-> <<>>,             \* sid -> in-memory bytes of OTHER calls accepted while the call was in progress:
+                                        \* they may have joined the backlog before the call was linearized
                incall |-> {},
                closed |-> FALSE,        \* close notification seen
                mustclose |-> FALSE]     \* an overflow was reported: the connection has to close
@@ -65,7 +68,7 @@ TakeNotFailed(st, e) == ~(Failed(st, e.sid) /\ st.ret[e.sid].err \in {"closed", 
                           /\ st.del[e.sid] = 0)
 QuiesceAll(st, e)   == e.open => \A s \in st.called : Accepted(st, s) => st.del[s] = st.size[s]
 \* C17: two-sided acceptance rule and the bound itself
-FitsAccepted(st, e) == (e.err = "overflow") => (st.bk[e.sid] + st.size[e.sid] > st.maxwb)
+FitsAccepted(st, e) == (e.err = "overflow") => (st.bk[e.sid] + st.ak[e.sid] + st.size[e.sid] > st.maxwb)
 BoundHeld(st, e)    == (e.err = "nil" /\ st.isbuf[e.sid]) =>
                           (st.bk[e.sid] + st.size[e.sid] - st.dk[e.sid] <= st.maxwb)
 OverflowCloses(st, e) == st.mustclose => st.closed
@@ -94,11 +97,14 @@ Effect(st, e) ==
                                       !.pred = Fn(@, e.sid, IF st.lin THEN st.called
                                                             ELSE {p \in st.called : Returned(st, p)}),
                                       !.bk = Fn(@, e.sid, st.accBuf - st.takenBuf),
-                                      !.dk = Fn(@, e.sid, 0),
+                                      !.dk = Fn(@, e.sid, 0), !.ak = Fn(@, e.sid, 0),
                                       !.incall = @ \cup {e.sid}]
       [] e.ev = "ret"   -> [st EXCEPT !.ret = Fn(@, e.sid, [n |-> e.n, err |-> e.err]),
                                       !.incall = @ \ {e.sid},
                                       !.accBuf = IF e.err = "nil" /\ st.isbuf[e.sid] THEN @ + st.size[e.sid] ELSE @,
+                                      !.ak = IF e.err = "nil" /\ st.isbuf[e.sid]
+                                               THEN [s \in DOMAIN @ |-> IF s \in st.incall \ {e.sid} THEN @[s] + st.size[e.sid] ELSE @[s]]
+                                               ELSE @,
                                       !.mustclose = @ \/ e.err = "overflow"]
       [] e.ev = "take"  -> IF e.sid = -1 \/ e.sid \notin st.called THEN st
                            ELSE [st EXCEPT !.del = Fn(@, e.sid, IF e.hi > @[e.sid] THEN e.hi ELSE @[e.sid]),
@@ -108,8 +114,9 @@ Effect(st, e) ==
                                                                            ~Returned(st, p) /\ st.del[p] < st.size[p]}
                                                            ELSE @,
                                            !.takenBuf = IF st.isbuf[e.sid] /\ ~e.peer THEN @ + (e.hi - e.lo) ELSE @,
-                                           !.dk = IF e.sid \in st.incall /\ ~e.peer
-                                                    THEN Fn(@, e.sid, @[e.sid] + (e.hi - e.lo)) ELSE @]
+                                           !.dk = IF st.isbuf[e.sid] /\ ~e.peer
+                                                    THEN [s \in DOMAIN @ |-> IF s \in st.incall THEN @[s] + (e.hi - e.lo) ELSE @[s]]
+                                                    ELSE @]
       [] e.ev = "onclose" -> [st EXCEPT !.closed = TRUE]
       \* real-socket runs of C17: the syscall recorder reports how many bytes of in-memory calls the
       \* kernel accepted (contents are only seen by the peer, later)
